@@ -394,7 +394,7 @@ pub fn run(outdir: &Path, tier: &str, seed: u64, shards: usize, replay: Option<S
     let cs = CaseSet {
         run_module: "RunVars".into(),
         cases,
-        checkers: ["corr_gen", "corr_serde", "corr_spec", "prop_c04", "known_enum_other"].iter().map(|s| s.to_string()).collect(),
+        checkers: ["corr_gen", "corr_serde", "corr_varcert", "corr_spec", "prop_c04", "known_enum_other", "info_var_uncertified"].iter().map(|s| s.to_string()).collect(),
         extra_imports: vec!["Json".into(), "TypeExpr".into(), "Schema".into(), "Query".into(), "Attrs".into(), "Codegen".into(), "RunSerde".into(), "RunGen".into()],
         preludes: vec![],
     };
